@@ -564,6 +564,17 @@ def subRootSegs (root : Str) : Option (List Str) :=
   let c := clean root
   if validPath c then some (if c = dot then [] else splitOn '/' c) else none
 
+/-- echo's default file system narrowed step by step (`e.Filesystem = MustSubFS(e.Filesystem, r1)`,
+    then `e.Static(prefix, r2)`, `g.Static`, another `MustSubFS` …): `subFS` on a `*defaultFS` joins
+    each root to the directory the file system is rooted at NOW (its `prefix`), an absolute root
+    replaces it.  Result: the elements of the final root below the work directory. -/
+def deriveRoots (cwd : List Str) : List Str → Option (List Str)
+  | [] => some cwd
+  | r :: rest =>
+    match dirRootSegs cwd r with
+    | some d => deriveRoots d rest
+    | none => none
+
 /-- `quoteEscaper.Replace(name)`: backslash and double quote get a backslash in front -/
 def quoteEscape : Str → Str
   | [] => []
@@ -627,6 +638,7 @@ def pFaults : P Faults := do
 inductive RootSpec where
   | given (rs : List Str)
   | sub (root : Str)
+  | derived (cwd : List Str) (roots : List Str)   -- default file system narrowed by these roots in turn
 
 inductive Op where
   | mw (rec : Bool) (cfg : MwCfg) (t : Tree) (rootSegs : List Str) (cPath star urlPath : Str) (next : Next)
@@ -680,10 +692,14 @@ def pOp : P Op := do
     pure (.mwRaw rec_ t rs f skip ⟨root, index, h, b, ib, kind⟩ cwd cp st up nx)
   | 5 =>
     let f ← pFaults
-    let sub ← opt str
+    let mode ← nat
+    let spec ← (match mode with
+      | 0 => pure (RootSpec.given rs)
+      | 1 => do let r ← str; pure (RootSpec.sub r)
+      | _ => do let cwd ← list str; let roots ← list str; pure (RootSpec.derived cwd roots))
     let st ← str
     let up ← str
-    pure (.dirF rec_ t (match sub with | some r => .sub r | none => .given rs) f st up)
+    pure (.dirF rec_ t spec f st up)
   | 6 =>
     let f ← pFaults
     let osCwd ← opt (list str)
@@ -708,6 +724,10 @@ def runLine (line : String) : String :=
     match subRootSegs root with
     | some rs => encResult r (staticDirF f t rs st up)
     | none => "config-panic"
+  | some (.dirF r t (.derived cwd roots) f st up) =>
+    match deriveRoots cwd roots with
+    | some rs => encResult r (staticDirF f t rs st up)
+    | none => "root-outside-work-directory"
   | some (.fileF r t rs f m n none) => encResult r (fsFileF f m t rs n)
   | some (.fileF r t rs f m n (some (typ, dn))) =>
     let d := dispFile f m t rs n typ dn
